@@ -1194,7 +1194,7 @@ class Repr(EnvironmentFilter):
                     if isinstance(old[target],BinaryReward):
                         new_argmax = new['actions'][old['actions'].index(old[target]._argmax)]
                         new[target] = BinaryReward(new_argmax,old[target]._value)
-                    elif isinstance(old[target],DiscreteReward):
+                    elif isinstance(old[target],DiscreteReward) and old[target].actions == old['actions']:
                         new[target] = DiscreteReward(new['actions'],old[target].rewards)
                     else:
                         new[target] = DiscreteReward(new['actions'],list(map(old[target],old['actions'])))
